@@ -31,26 +31,26 @@ Definition w_D : nat -> nat -> QI2 := kron qi2ops 2 (pauli_mat qi2ops qi2_i PX) 
 Lemma w_S_unitary : unitary qi2ops 2 w_S.
 Proof. split; apply meq_of_forallb; vm_compute; reflexivity. Qed.
 
-Definition w_nij_res := mle_nij qi2ops 1 (req_canonical 1 false)
-  (process_ideal qi2ops qi2_i qi2_h 1 w_S (istrings mle_inputs 1) (req_canonical 1 false)).
+Definition res_get {A} (d : A) (r : res A) : A := match r with Ok x => x | Err _ => d end.
 Definition w_nij : list ((instr * mstr) * QI2) :=
-  Eval vm_compute in match w_nij_res with Ok x => x | Err _ => [] end.
-Definition w_nv : list QI2 :=
-  Eval vm_compute in match n_vec_from_data qi2ops 1 w_nij with Ok x => x | Err _ => [] end.
+  res_get [] (mle_nij qi2ops 1 (req_canonical 1 false)
+                (process_ideal qi2ops qi2_i qi2_h 1 w_S (istrings mle_inputs 1) (req_canonical 1 false))).
+Definition w_nv : list QI2 := res_get [] (n_vec_from_data qi2ops 1 w_nij).
 
-Lemma w_nij_eq : w_nij_res = Ok w_nij.
+Lemma w_nij_eq :
+  mle_nij qi2ops 1 (req_canonical 1 false)
+          (process_ideal qi2ops qi2_i qi2_h 1 w_S (istrings mle_inputs 1) (req_canonical 1 false)) = Ok w_nij.
 Proof. vm_compute. reflexivity. Qed.
 Lemma w_nv_eq : n_vec_from_data qi2ops 1 w_nij = Ok w_nv.
 Proof. vm_compute. reflexivity. Qed.
 
-Definition w_G : nat -> nat -> QI2 := gradient_pinned qi2ops qi2_i 1 (mle_start qi2ops 1) w_nv.
-
 Lemma w_D_hermitian : hermitian qi2ops 4 w_D.
 Proof. apply meq_of_forallb. vm_compute. reflexivity. Qed.
-Lemma w_grad_wrong : hs_inner qi2ops 4 w_G w_D <> dir_deriv_pinned qi2ops qi2_i 1 (mle_start qi2ops 1) w_nv w_D.
+Lemma w_grad_wrong :
+  hs_inner qi2ops 4 (gradient_pinned qi2ops qi2_i 1 (mle_start qi2ops 1) w_nv) w_D <> dir_deriv_pinned qi2ops qi2_i 1 (mle_start qi2ops 1) w_nv w_D.
 Proof. apply neq_of_keqb. vm_compute. reflexivity. Qed.
 Lemma w_grad_conj_right :
-  hs_inner qi2ops 4 (mconj qi2ops w_G) w_D = dir_deriv_pinned qi2ops qi2_i 1 (mle_start qi2ops 1) w_nv w_D.
+  hs_inner qi2ops 4 (mconj qi2ops (gradient_pinned qi2ops qi2_i 1 (mle_start qi2ops 1) w_nv)) w_D = dir_deriv_pinned qi2ops qi2_i 1 (mle_start qi2ops 1) w_nv w_D.
 Proof. apply (proj1 (ui_eqb (o:=qi2ops) _ _)). vm_compute. reflexivity. Qed.
 
 (* F8 (pinned tree): on the noiseless data of the S gate, at the starting point of pgdb, the matrix that
